@@ -19,7 +19,7 @@ Fixpoint lval_obs (v : lval) : obs :=
   | LTag n => OL [OZ 6; ON n]
   end.
 
-Definition gstate_obs (s : gstate) : obs := OZ (match s with GSok => 0 | GSabsent => 1 | GSblocked => 2 end).
+Definition gstate_obs (s : gstate) : obs := OZ (match s with GSok => 0 | GSabsent => 1 | GSblocked => 2 | GSshared => 3 end).
 Fixpoint value_obs (v : value L) : obs :=
   match v with
   | VLeaf (tid, x) => OL [OZ 0; ON tid; lval_obs x]
